@@ -14,7 +14,7 @@ func init() {
 		Level: "exploration",
 		Rule: "one run = one generated application with rich INCMP blocks (0..8 lines in any order, duplicate selectors, wildcard anywhere, relative targets, mostly distinct named targets) + an input history drawn from the node's own selectors, near-misses, free text and garbage, with restarts at request boundaries in half of the runs and failing external calls; " +
 			"the moves of every request (one code fetch per successful move, with the resulting node) must be exactly the reference model's routing decision; non-trivial = at least one request where the input matched a non-first INCMP line, a duplicate or a wildcard that is not last, or matched nothing; distinct = distinct sequences of (node, input class, moves)",
-		Runs:       map[string]int{"quick": 80000, "thorough": 2000000},
+		Runs:       map[string]int{"quick": 80000, "thorough": 5000000},
 		MaxSeconds: map[string]int{"quick": 40, "thorough": 900},
 		Run:        runC03,
 		Assumptions: []string{
